@@ -150,6 +150,8 @@ pub fn whole<S: Src, const KIND: u8, const N: usize>(s: &mut S) {
                 crate::stubs::allow_alloc(5, 16);
                 crate::stubs::allow_alloc(6, 24);
                 crate::stubs::allow_alloc(7, 32);
+                crate::stubs::allow_grow(0, 8, 32);
+                crate::stubs::allow_grow(1, 32, 64);
             }
             let mut it = (&map).into_iter();
             let mut ik = map.keys();
